@@ -128,7 +128,7 @@ func init() {
 			}
 			return []string{"release", "noopt", "nooptl", "race"}
 		},
-		Required: []string{"arguments-in-read-only-memory", "cmp/equal", "cmp/prefix", "cmp/differ", "cmp/same-bytelen", "cmp/diff-bytelen", "cmp/empty-vs-nonempty", "upto/a-shorter", "upto/a-equal", "upto/a-longer",
+		Required: []string{"long-run/calls>=100000-per-function", "arguments-in-read-only-memory", "cmp/equal", "cmp/prefix", "cmp/differ", "cmp/same-bytelen", "cmp/diff-bytelen", "cmp/empty-vs-nonempty", "upto/a-shorter", "upto/a-equal", "upto/a-longer",
 			"upto/empty-b", "upto/unaligned-b", "upto/dirty-spare-capacity", "cmp/prefix-view-same-base-address", "new/aligned-empty-after-scribble", "upto/long>=8", "upto/short<8", "str/site=arg", "str/site=field", "str/site=elem", "str/site=closure", "str/site=map", "str/site=substr"},
 		Families: func(c *mon.Config) []mon.Family {
 			rows := 4051
@@ -150,6 +150,7 @@ func init() {
 				}},
 				{Name: "universe-rows", Env: 2, N: rows / step, Run: func(w *mon.W, idx int) { c09Row(w, idx*step) }},
 				{Name: "keyzoo", Env: 4, N: c.Pick(12000, 1500000) / step, Run: c09KeyZoo},
+				lrFamily(c09LongRun),
 			}
 		},
 	})
